@@ -1050,7 +1050,9 @@ def opFacts : OpFacts :=
 					names = append(names, src(e))
 				}
 				if strings.Join(names, ",") == "aAdd,aSub,aMul,aQuo,aAnd,aOr,aXor,aAndNot" && len(cc.Body) == 1 &&
-					src(cc.Body[0]) == "switch { case n.typ == nil: case !c0.typ.untyped: n.typ = c0.typ case !c1.typ.untyped: n.typ = c1.typ }" {
+					// 674fd4c narrows the first arm to non-constant operations (constant operations are folded: outside the fragment)
+					(src(cc.Body[0]) == "switch { case n.typ == nil: case !c0.typ.untyped: n.typ = c0.typ case !c1.typ.untyped: n.typ = c1.typ }" ||
+						src(cc.Body[0]) == "switch { case n.typ == nil && !(c0.rval.IsValid() && c1.rval.IsValid()): case !c0.typ.untyped: n.typ = c0.typ case !c1.typ.untyped: n.typ = c1.typ }") {
 					opTypeOperand = true
 				}
 				return true
